@@ -419,6 +419,23 @@ def rule_gate(ctx):
         ("Element", "__init__"), ("Element", "value"), ("Element", "reset_value"),
         ("Switch", "reset_bool_value"), ("SwitchVector", "apply_rule"),
     }
+    # a private helper is inside the gate when every function that calls it is (helpers extracted from the setter)
+    devfns = [fi for fi in p.functions if fi.module.name.startswith("indi.device")]
+
+    def callers_of(name):
+        return [g for g in devfns if any(isinstance(n_, ast.Call) and isinstance(n_.func, ast.Attribute) and n_.func.attr == name for n_ in ast.walk(g.node))]
+
+    def inside(fi, depth=0):
+        key = (fi.cls.name if fi.cls else None, fi.name)
+        if key == ("Element", "value"):
+            return fi.kind == "setter"
+        if key in allowed:
+            return True
+        if depth < 4 and fi.name.startswith("_") and not fi.name.startswith("__"):
+            cs = callers_of(fi.name)
+            return bool(cs) and all(inside(g, depth + 1) for g in cs)
+        return False
+
     for fi in p.functions:
         if not fi.module.name.startswith("indi.device"):
             continue
@@ -429,10 +446,7 @@ def rule_gate(ctx):
                     for sub in ast.walk(t):
                         if isinstance(sub, ast.Attribute) and sub.attr == VAL and isinstance(sub.ctx, ast.Store):
                             n += 1
-                            key = (fi.cls.name if fi.cls else None, fi.name)
-                            if key == ("Element", "value") and fi.kind != "setter":
-                                key = None
-                            ctx.check(key in allowed, "C09.GATE", fi.short, "store inside the gate", f"{fi.short} writes an element's _value outside the value setter / rule function: the switch rule is bypassed", fi=fi, node=node)
+                            ctx.check(inside(fi), "C09.GATE", fi.short, "store inside the gate", f"{fi.short} writes an element's _value outside the value setter / rule function: the switch rule is bypassed", fi=fi, node=node)
             if isinstance(node, ast.Call) and isinstance(node.func, ast.Name) and node.func.id == "setattr" and len(node.args) >= 2 and isinstance(node.args[1], ast.Constant) and node.args[1].value == VAL:
                 n += 1
                 ctx.violated("C09.GATE", fi.short, "setattr(..., '_value', ...) bypasses the switch rule", fi=fi, node=node)
